@@ -477,8 +477,8 @@ func (g *mgGen) ifStmt(depth int) *mgS {
 	return s
 }
 
-func lit(z int) *mgA  { return &mgA{k: "lit", z: int64(z)} }
-func vr(x int) *mgA   { return &mgA{k: "var", x: x} }
+func lit(z int) *mgA { return &mgA{k: "lit", z: int64(z)} }
+func vr(x int) *mgA  { return &mgA{k: "var", x: x} }
 func cmpv(op string, x, z int) *mgB {
 	return &mgB{k: "cmp", op: op, a: vr(x), b: lit(z)}
 }
